@@ -228,6 +228,8 @@ pub struct World {
     pub ghost ran_groups: Seq<Seq<Seq<char>>>,   // target paths, group by group, of the plan that was executed
     pub ghost argmap_log: Seq<(Seq<char>, Seq<char>)>,  // (target, argmap file) merge attempts, in order
     pub ghost pointer_saved: Seq<int>,           // ids written to the run pointer, in order
+    // the checkpoint store (unit checkpoint): None = no checkpoint file
+    pub ghost cp_file: Option<(Seq<char>, Option<Map<Seq<char>, String>>)>,
     // lock (unit cli)
     pub ghost lock_held: bool,
     pub ghost effects: nat,                      // number of mutating application entry points entered
@@ -363,6 +365,13 @@ pub mod tokio {
     pub mod net {
         use vstd::prelude::*;
         pub struct TcpStream { pub x: u8 }
+    }
+    pub mod fs {
+        use vstd::prelude::*;
+        use super::super::*;
+        // tokio::fs::remove_file applied to the checkpoint file (unit checkpoint)
+        #[verifier::external_body] pub async fn remove_file(p: &path::PathBuf, Tracked(w): Tracked<&mut World>) -> (r: Result<(), std::io::Error>)
+            ensures r is Ok ==> final(w).cp_file is None, r is Err ==> final(w).cp_file == old(w).cp_file { unimplemented!() }
     }
 }
 impl<T> From<tokio::sync::mpsc::SendError<T>> for MonorailError { #[verifier::external_body] fn from(error: tokio::sync::mpsc::SendError<T>) -> (r: Self) ensures r is ChannelSend { unimplemented!() } }
